@@ -641,7 +641,10 @@ def replay_pipeline(w):
     if w.get("buffer"):
         src = "{% filter upper %}" + src + "{% endfilter %}"  # a buffered frame
         want = want.upper()
-    got = env.from_string(src).render(flag=flag)
+    try:
+        got = env.from_string(src).render(flag=flag)
+    except Exception as ex:  # noqa
+        got = f"<{type(ex).__name__}: {ex}>"
     return (str(got) != want, f"finalize=lambda v: '[%s]' % v, source {src!r} (flag={flag}): rendered {str(got)!r}, the text itself is {want!r}")
 
 
